@@ -352,9 +352,17 @@ def run_kani(crate: KaniCrate, harnesses, timeout_s=600, mem_gb=12, jobs=None, e
 def parse_playback_values(text):
     """Concrete playback prints one `vec![..bytes..]` per kani::any() call, in call order.
     Returns list[bytes] of the first generated test."""
-    m = re.search(r"let concrete_vals: Vec<Vec<u8>> = vec!\[(.*?)\n\s*\];", text, re.S)
+    m = None
+    for tm in re.finditer(r"((?:\s*///[^\n]*\n)+)\s*#\[test\]\s*fn kani_concrete_playback_\w+\(\) \{\s*let concrete_vals: Vec<Vec<u8>> = vec!\[(.*?)\n\s*\];", text, re.S):
+        if "Check for `cover`" not in tm.group(1):
+            m = tm
+            break
     if not m:
         return None
+    class _M:
+        def __init__(self, g): self.g = g
+        def group(self, i): return self.g
+    m = _M(m.group(2))
     vals = []
     for vm in re.finditer(r"vec!\[([0-9,\s]*)\]", m.group(1)):
         body = vm.group(1).strip()
